@@ -114,7 +114,7 @@ def check_pair(ctx, c):
             return float(np.asarray(model.correlation(np.array([abs(r)])))[0])
 
     for r in (0.0, 0.37 * unit, 1.9 * unit):
-        if not abs(rho(r) - float(ocov.correlation(d, r))) <= 1e-9:
+        if not abs(rho(r) - float(ocov.correlation(d, r))) <= 1e-9 + ocov.evaluation_slack(d):
             ctx.fail({"what": "correlation!=closed-form", "model": name, "dim": dim}, f"r={r}: {rho(r)} vs {float(ocov.correlation(d, r))}")
             return
     oft.use_correlation(d, rho)
